@@ -36,8 +36,9 @@ func init() {
 }
 
 type c02X struct {
-	Text string `json:"text"`
-	Cls  string `json:"cls"`
+	Early string `json:"early,omitempty"` // kernel-queue family: bytes put in the terminal's own input queue before the call
+	Text  string `json:"text"`
+	Cls   string `json:"cls"`
 }
 
 // genC02TwoLines: two lines typed one after the other for two Readline calls of the same shell; under the
@@ -67,6 +68,9 @@ func genC02TwoLines(g *Gen) *wire.Scenario {
 func genC02(g *Gen, tier string, idx int) *wire.Scenario {
 	if idx%8 == 7 {
 		return genC02TwoLines(g)
+	}
+	if idx%40 == 5 {
+		return genC02KernelQueue(g)
 	}
 	mode := Pick(g, []string{"emacs", "vi"})
 	sc := &wire.Scenario{Prop: "C02", Family: "type"}
@@ -127,10 +131,69 @@ func genC02(g *Gen, tier string, idx int) *wire.Scenario {
 	return sc
 }
 
+// genC02KernelQueue: keys typed before the call (the application was busy) wait in the terminal's own input
+// queue while Readline switches the terminal modes, at the start and at the end of the call. Switching modes
+// is not reading: what waits there stays there (the simulated keyboard feeds the Stdin seam, so nothing of
+// the library ever reads the real queue, and what was put in must still be in).
+func genC02KernelQueue(g *Gen) *wire.Scenario {
+	sc := &wire.Scenario{Prop: "C02", Family: "kernel-queue"}
+	sc.Env = wire.Env{Mode: Pick(g, []string{"emacs", "vi"}), Prompt: "> ", W: 80, H: 24}
+	early := Pick(g, []string{"abc\n", "ab\n", "x\n", "ls -l\npwd\n", "q\n"}) // (whole lines: countable in canonical mode too)
+	var rs []rune
+	for i := 0; i < g.Range(1, 6); i++ {
+		rs = append(rs, g.textRune(false))
+	}
+	for _, r := range rs {
+		sc.Script = append(sc.Script, tok(string(r), "self-insert"))
+	}
+	sc.Script = append(sc.Script, tok("\r", "accept-line"))
+	sc.X = mustJSON(c02X{Text: string(rs), Cls: "ascii", Early: early})
+	sc.Plan = wire.Plan{Policy: "canonical", Class: "S0"}
+	return sc
+}
+
 func execC02(x *Ctx, sc *wire.Scenario) *wire.Result {
 	res := okResult(sc)
 	var xx c02X
 	jsonInto(sc.X, &xx)
+	if sc.Family == "kernel-queue" {
+		var atWait, afterReturn = -2, -2
+		x.P.FlushKernelQueue()
+		hooks := sim.Hooks{
+			Body: func(s *sim.Session, sh *readlineShell) {
+				x.P.TypeIntoKernel([]byte(xx.Early))
+				s.Readline(sh)
+				afterReturn = x.P.KernelQueue()
+			},
+			OnWait: func(s *sim.Session, snap *sim.Snap) {
+				if atWait == -2 {
+					atWait = x.P.KernelQueue()
+				}
+			},
+		}
+		out := runSession(x, sc, sc.Plan, hooks, false)
+		x.P.FlushKernelQueue()
+		absorb(res, out)
+		if crashOracle(res, out, "C02") {
+			return res
+		}
+		res.Nontrivial = true
+		if len(out.Returns) != 1 || out.Returns[0].Line != xx.Text {
+			res.Counters["skipped:did_not_return_the_text"]++
+			return res
+		}
+		want := len(xx.Early)
+		res.Counters["kernel_queue_checked"]++
+		if atWait != want {
+			return violation(res, "MISMATCH", "C02.typed-ahead-keys-survive-the-mode-switch", "kernel-queue:lost-entering",
+				fmt.Sprintf("%q was typed before the call and waited in the terminal's input queue (%d bytes); at Readline's first wait for input the queue holds %d bytes: entering raw mode threw typed keys away", xx.Early, want, atWait))
+		}
+		if afterReturn != want && afterReturn != -2 {
+			return violation(res, "MISMATCH", "C02.typed-ahead-keys-survive-the-mode-switch", "kernel-queue:lost-leaving",
+				fmt.Sprintf("%q waited in the terminal's input queue during the call (%d bytes); after Readline returned the queue holds %d bytes: restoring the terminal modes threw typed keys away", xx.Early, want, afterReturn))
+		}
+		return res
+	}
 	if sc.Family == "type-two-lines" {
 		want := strings.SplitN(xx.Text, "\n", 2)
 		hooks := sim.Hooks{Body: func(s *sim.Session, sh *readlineShell) {
@@ -541,6 +604,9 @@ func execC05(x *Ctx, sc *wire.Scenario) *wire.Result {
 			sig := batch + "diverge:" + kind + ":" + feat
 			if batch == "" {
 				sig = "diverge:" + feat
+			} else if feat == "typed-bytes-reach-cursor-query-read" && sc.Env.Mode == "emacs" {
+				// (in emacs mode the core scripts do not depend on it: named in full)
+				sig = batch + "diverge:" + kind + ":" + feat + ":emacs"
 			} else if feat == "typed-bytes-reach-cursor-query-read" {
 				// the one known defect that the core scripts reach as well (rarely): keys read by the
 				// cursor position query are put back without the main read path's bookkeeping
